@@ -180,21 +180,22 @@ def dec_array(j, dtype="float64", static=True):
             else sr.FermionicArray
         )
         kw = {} if (static and sym != "Z4") else {"symmetry": sym}
-        x = cls(indices=indices, charge=charge, blocks=blocks, **kw)
+        odd = [sr.FermionicOperator(l, d) for l, d in j.get("oddpos", [])]
+        x = cls(indices=indices, charge=charge, blocks=blocks, oddpos=odd, **kw)
         x._phases = {dec_sector(s, sym): p for s, p in j.get("phases", [])}
-        x._oddpos = tuple(sr.FermionicOperator(l, d) for l, d in j.get("oddpos", []))
         return x
     cls = getattr(sr, f"{sym}Array") if static and sym != "Z4" else sr.AbelianArray
     kw = {} if (static and sym != "Z4") else {"symmetry": sym}
     return cls(indices=indices, charge=charge, blocks=blocks, **kw)
 
 
-def dec_vec(j, dtype="float64"):
+def dec_vec(j, dtype="float64", sym=None):
     import symmray as sr
 
-    return sr.BlockVector(
-        {tuple(b["charge"]): dec_block(b, dtype) for b in j["vblocks"]}
-    )
+    def ck(c):
+        return int(c[0]) if (sym in (None, "Z2", "Z4", "U1")) else (int(c[0]), int(c[1]))
+
+    return sr.BlockVector({ck(b["charge"]): dec_block(b, dtype).reshape(-1) for b in j["vblocks"]})
 
 
 # ------------------------------------------------------------------ canonical observations
